@@ -138,6 +138,12 @@ pub fn gen_feature(t: &mut Tape, idx: usize) -> Gen {
                 if t.chance(1, 6) {
                     g.text.push_str(&format!("{ind}    # a comment\n"));
                 }
+                if t.chance(1, 8) {
+                    // an `Examples:` block without any table (legal Gherkin): it contributes no
+                    // rows and must not affect the blocks around it
+                    g.header_only = true;
+                    continue;
+                }
                 let nc = if t.chance(9, 10) { COLS.len() } else { t.range(1, 3) };
                 let mut cs: Vec<&str> = vec![];
                 let mut k = 0;
